@@ -108,7 +108,7 @@ def call_data_family(rng, sh, maxabs=0):
     if k == 12 and cnt <= 100:
         pre = [rng.choice([1, 2, 3]) for _ in range(rng.randint(0, 4 - min(n, 4)))]
         tgt = pre + [d if (d != 1 or rng.random() < 0.5) else rng.choice([2, 3]) for d in sh]
-        if rng.random() < 0.1:
+        if tgt and rng.random() < 0.1:
             tgt[-1] = tgt[-1] + 1
         return f"broadcast_to {{a}} {lst(tgt)}"
     if k == 13:
